@@ -217,7 +217,11 @@ struct Script {
 /// Scripts always start without capacity and end with capacity.
 fn make_script(rng: &mut Rng, kind: u64) -> Script {
     let waiters = 1 + rng.below(3) as usize;
-    match kind % 4 {
+    match kind % 5 {
+        4 => {
+            // both limits exceeded; two symmetric decrements that cross each other; the sum frees capacity
+            Script { muts: vec![vec![(false, 40, 1)], vec![(false, 40, 1)]], waiters, init: (MAX_MSGS + 1, MAX_BYTES + 50) }
+        }
         0 => {
             // full on messages; one dec releases everybody
             Script { muts: vec![vec![(false, 0, 1)]], waiters, init: (MAX_MSGS, 10) }
@@ -276,6 +280,11 @@ fn run_trial_spawned(script: &Script, rng: &mut Rng, jitter: bool, free: bool) -
     let sh = Arc::new(Shadow::new(script.init.0, script.init.1, free));
     let states: Vec<Arc<WaiterState>> = (0..script.waiters).map(|_| Arc::new(WaiterState { park: Mutex::new(Park::default()), cv: Condvar::new(), wakes: AtomicU64::new(0) })).collect();
     let go = Arc::new(Barrier::new(script.waiters + script.muts.len()));
+    // tight trials: the mutators additionally meet at a spin barrier, so that their calls really overlap
+    let spin_gate = Arc::new(AtomicUsize::new(0));
+    let n_muts = script.muts.len();
+    let crossing_script = free && n_muts == 2 && script.muts.iter().all(|m| m.len() == 1);
+    let tight = jitter && (rng.below(3) == 0 || crossing_script);
     let mut wh = Vec::new();
     for ws in &states {
         let (sh, ws, go) = (Arc::clone(&sh), Arc::clone(ws), Arc::clone(&go));
@@ -289,10 +298,17 @@ fn run_trial_spawned(script: &Script, rng: &mut Rng, jitter: bool, free: bool) -
     for ops in &script.muts {
         let (sh, go, ops) = (Arc::clone(&sh), Arc::clone(&go), ops.clone());
         // a third of the trials: no jitter at all, so that the mutators' calls cross each other
-        let tight = jitter && rng.below(3) == 0;
         let spins: Vec<u64> = ops.iter().map(|_| if jitter && !tight { rng.below(300) } else { 0 }).collect();
+        let gate = Arc::clone(&spin_gate);
         mh.push(std::thread::spawn(move || {
             go.wait();
+            if tight {
+                gate.fetch_add(1, Ordering::SeqCst);
+                let t0 = std::time::Instant::now();
+                while gate.load(Ordering::SeqCst) < n_muts && t0.elapsed().as_millis() < 50 {
+                    std::hint::spin_loop();
+                }
+            }
             for (i, (inc, b, m)) in ops.iter().enumerate() {
                 for _ in 0..spins[i] {
                     std::hint::spin_loop();
@@ -386,7 +402,7 @@ fn main() {
                     std::process::exit(1);
                 }
                 (None, Some(i)) => println!("FLOW INCONCLUSIVE {}", i),
-                _ => println!("FLOW ok script={} waiters={} parked={} polls={:?}", k % 4, script.waiters, o.parked, o.polls),
+                _ => println!("FLOW ok script={} waiters={} parked={} polls={:?}", k % 5, script.waiters, o.parked, o.polls),
             }
         }
         "native" => {
@@ -401,7 +417,7 @@ fn main() {
             let mut inconclusive = 0u64;
             let mut samples: Vec<serde_json::Value> = vec![];
             for t in 0..trials {
-                let kind = rng.below(4);
+                let kind = rng.below(5);
                 let script = make_script(&mut rng, kind);
                 let free = rng.below(2) == 0;
                 let o = run_trial_spawned(&script, &mut rng, true, free);
@@ -429,7 +445,7 @@ fn main() {
                 "episodes": trials, "nontrivial": parked_trials, "keys": keys.iter().map(|k| { let mut h: u64 = 0xcbf29ce484222325; for b in k.bytes() { h ^= b as u64; h = h.wrapping_mul(0x100000001b3); } h }).collect::<Vec<u64>>(),
                 "violations": violations, "inconclusive": if inconclusive > 0 { serde_json::json!({"flow-native: waiter neither finished nor parked within 20 s": inconclusive}) } else { serde_json::json!({}) },
                 "counters": {"trials_with_parked_waiter": parked_trials}, "minmax": {}, "samples": samples, "hooks": {}, "panics": [],
-                "rule": "native threads: per trial 1-3 waiter threads drive wait_for_available_space() with a hand-written executor while 1-2 mutator threads run a script of inc/dec (4 script kinds: single releasing dec, two mutators freeing one dimension each, capacity churn, random walk ending below both limits) with random spin jitter between the steps; in half of the trials the mutators are serialised by the trace wrapper (exact trace, strong spurious-resume oracle), in the other half they overlap freely (crossing inc/dec calls; logical-clock log, lower-bound spurious-resume oracle). Non-trivial: a waiter parked at least once before returning. Distinct: (script kind, waiters, script lengths, sorted poll-count vector).",
+                "rule": "native threads: per trial 1-3 waiter threads drive wait_for_available_space() with a hand-written executor while 1-2 mutator threads run a script of inc/dec (5 script kinds: single releasing dec, two mutators freeing one dimension each, capacity churn, two mutators with add/remove pairs, two symmetric crossing decrements from a state above both limits) with random spin jitter between the steps; in half of the trials the mutators are serialised by the trace wrapper (exact trace, strong spurious-resume oracle), in the other half they overlap freely (crossing inc/dec calls; logical-clock log, lower-bound spurious-resume oracle). Non-trivial: a waiter parked at least once before returning. Distinct: (script kind, waiters, script lengths, sorted poll-count vector).",
                 "exhaustive_plan": false, "truncated": false, "wall_s": t0.elapsed().as_secs_f64()
             });
             let s = serde_json::to_string(&j).unwrap();
